@@ -20,5 +20,5 @@ for p in $PROPS; do
     echo "$p exit=$rc violations=$nv $first"
     if [ $rc -eq 2 ]; then echo "$out" | grep -i "machinery" | head -3; fi
 done
-git -C $R checkout -- .
+git -C $R checkout -- .; git -C $R clean -fdq -- src tests
 git -C $R status --porcelain --untracked-files=no | head -3
